@@ -32,6 +32,10 @@ def main():
         if args and not any(name.startswith(a) for a in args):
             continue
         meta = json.load(open(f"{d}/meta.json"))
+        if meta.get("retired"):
+            print(f"{name}: retired ({meta.get('retired_reason','')[:80]}...)")
+            matrix[name] = {"retired": True, "reason": meta.get("retired_reason")}
+            continue
         expect = meta.get("confirmed_by_main_session", {}).get("caught") or [meta["property"]]
         ids = all_ids if run_all else expect
         a = sh(f"git -C {R} apply {d}/patch.diff")
